@@ -10,6 +10,16 @@ import (
 func init() {
 	// read without synchronisation from the watchdog goroutine: only "did it change" matters
 	core.ProgressProbe = func() uint64 { return verifrt.Ticks }
+	// every guarded call runs under a step budget: the caller's own if it armed one, else the
+	// same quadratic allowance from the length of the current input
+	core.CallGuard = func(inputLen int) func() {
+		if verifrt.Budget != 0 {
+			return func() {}
+		}
+		verifrt.Ticks = 0
+		verifrt.Budget = 1000 * uint64(inputLen+16) * uint64(inputLen+16)
+		return func() { verifrt.Budget = 0 }
+	}
 }
 
 // tickEnabled reports whether the step sanitizer overlay is compiled in.
